@@ -9,6 +9,7 @@ import (
 	"strings"
 
 	"pgregory.net/rapid"
+	"verif/internal/model"
 )
 
 //go:embed corpus/spec-0.30.json
@@ -265,17 +266,30 @@ func join(lines [][]byte) []byte {
 	return out
 }
 
-// Doc is the standard mix of G1, G2 and G3 (50/30/20).
-func Doc() *rapid.Generator[[]byte] {
-	s, l, c := Soup(), Lines(), Corpus()
+// Model is G4 as a byte generator: the serialization of a generated abstract
+// document under generated spelling choices (deep, well-formed nesting).
+func Model() *rapid.Generator[[]byte] {
 	return rapid.Custom(func(t *rapid.T) []byte {
-		switch k := rapid.IntRange(0, 9).Draw(t, "g"); {
-		case k < 5:
+		ch := model.RapidChooser{T: t}
+		g := &model.Gen{C: ch, Sz: model.Small}
+		doc := g.Doc()
+		return []byte((&model.Ser{C: ch}).Serialize(doc))
+	})
+}
+
+// Doc is the standard mix of G1, G2, G3 and G4 (45/25/20/10).
+func Doc() *rapid.Generator[[]byte] {
+	s, l, c, m := Soup(), Lines(), Corpus(), Model()
+	return rapid.Custom(func(t *rapid.T) []byte {
+		switch k := rapid.IntRange(0, 19).Draw(t, "g"); {
+		case k < 9:
 			return s.Draw(t, "soup")
-		case k < 8:
+		case k < 14:
 			return l.Draw(t, "lines")
-		default:
+		case k < 18:
 			return c.Draw(t, "corpus")
+		default:
+			return m.Draw(t, "model")
 		}
 	})
 }
